@@ -66,6 +66,13 @@ pub struct Qcow2Dev<T> {
     // a cluster when the allocator hands it out again.
     data_io_lock: AsyncRwLock<()>,
 
+    // Metadata writes completed so far, and how many of them the last
+    // successful fsync is known to cover.  A slice is clean once it has been
+    // written, so "nothing dirty" can't tell a flusher whether an fsync is
+    // still owed - after an fsync that failed, for one.
+    meta_written: std::sync::atomic::AtomicU64,
+    meta_synced: std::sync::atomic::AtomicU64,
+
     file: T,
     backing_file: Option<Box<Qcow2Dev<T>>>,
     pub info: Qcow2Info,
@@ -128,6 +135,8 @@ impl<T: Qcow2IoOps> Qcow2Dev<T> {
             flush_lock: AsyncMutex::new(()),
             refcount_flush_lock: AsyncMutex::new(()),
             data_io_lock: AsyncRwLock::new(()),
+            meta_written: std::sync::atomic::AtomicU64::new(0),
+            meta_synced: std::sync::atomic::AtomicU64::new(0),
         };
 
         Ok(dev)
